@@ -33,6 +33,9 @@ pub struct Case {
     pub trailing: Vec<Vec<u8>>,
     pub sizes: Vec<usize>,
     pub evs: Vec<Ev>,
+    /// an earlier exchange on the same connection, finished before the chain starts: this many plain calls enqueued
+    /// one by one, flushed once, and their replies received (hand-made pipelining with the low-level API)
+    pub prelude: usize,
 }
 
 type Item = zlink_core::Result<zlink_core::reply::Result<P1, E1>>;
@@ -49,8 +52,30 @@ pub fn reference(frame: &[u8]) -> String {
 }
 
 pub fn run_case(c: &Case) -> (Vec<Vec<u8>>, Vec<String>, Vec<String>) {
-    let net = new_net(c.sizes.clone());
+    let net = new_net(vec![]);
     let mut conn = Connection::new(SSocket(net.clone()));
+    if c.prelude > 0 {
+        for i in 0..c.prelude {
+            let call = Call::new(M1::C { n: i as u32, o: None });
+            conn.enqueue_call(&call).expect("prelude enqueue");
+        }
+        block_on(conn.flush()).expect("prelude flush");
+        for i in 0..c.prelude {
+            net.borrow_mut().avail.extend(format!("{{\"parameters\":{{\"name\":\"p{i}\"}}}}\0").bytes());
+        }
+        for _ in 0..c.prelude {
+            let _ = block_on(conn.receive_reply::<P1, E1>());
+        }
+    }
+    {
+        // the recorded part starts here: the chain's own writes, the chain's own read-size schedule
+        let mut n = net.borrow_mut();
+        n.writes.clear();
+        n.nwrites = 0;
+        n.sizes = c.sizes.clone();
+        n.k = 0;
+        n.reads = 0;
+    }
     let connp: *mut Connection<SSocket> = &mut conn;
     let mut stream_out = vec![];
     let mut after = vec![];
@@ -117,7 +142,7 @@ pub fn run_case(c: &Case) -> (Vec<Vec<u8>>, Vec<String>, Vec<String>) {
 }
 
 pub fn line(c: &Case, obs: &(Vec<Vec<u8>>, Vec<String>, Vec<String>)) -> String {
-    let mut s = String::from("chain K");
+    let mut s = if c.prelude > 0 { format!("chain PRE{} K", c.prelude) } else { String::from("chain K") };
     for (k, call) in &c.calls {
         let b = serde_json::to_vec(call).unwrap();
         s.push_str(&format!(" {}:{}", match k { CK::Plain => 'p', CK::Oneway => 'o', CK::More => 'm' }, enc_bytes(&b)));
@@ -282,7 +307,7 @@ pub fn gen_case(shape: &[CK], rng: &mut Rng, exhaustive_cut: Option<usize>) -> C
     };
     let close = rng.chance(2, 3);
     let evs = events(&stream, script.len(), trailing.len(), rng, cuts, close);
-    Case { calls, script, trailing, sizes, evs }
+    Case { calls, script, trailing, sizes, evs, prelude: if rng.chance(1, 4) { rng.range(1, 3) } else { 0 } }
 }
 
 /// Big batches: a `more` call answered by 8..30 continuing replies of 0.5..2.5 KiB (17..50 KiB in all) followed by the
@@ -324,7 +349,7 @@ pub fn gen_big(rng: &mut Rng) -> Case {
     let sizes = if rng.chance(2, 3) { vec![] } else { vec![rng.range(2000, 9000); 100] };
     let close = rng.chance(1, 2);
     let evs = events(&stream, script.len(), trailing.len(), rng, cuts, close);
-    Case { calls, script, trailing, sizes, evs }
+    Case { calls, script, trailing, sizes, evs, prelude: 0 }
 }
 
 pub fn main(o: &Opts) {
